@@ -173,7 +173,8 @@ fn cmd_minimize(args: &[String]) -> i32 {
     let out = arg(args, "--out").expect("--out");
     let ctx = Ctx { k: w1::measure_consts().k, focus: focus_of(&cf.property) };
     let min = minimize::minimize(&cf.case, &cf.signature, &ctx);
-    let cf2 = CaseFile { case: min, ..cf };
+    let found_by = arg(args, "--found-by").and_then(|s| serde_json::from_str(s).ok()).unwrap_or(cf.found_by.clone());
+    let cf2 = CaseFile { case: min, found_by, ..cf };
     std::fs::write(out, serde_json::to_string_pretty(&cf2).unwrap()).expect("write");
     0
 }
